@@ -50,6 +50,11 @@ def candidates(rng, n):
     did += 1
     cands.append(enum(did, [variant("Mb"), variant("MB"), variant("Marked", aci=1), variant("Nothing", "tuple", [field("u8")], ser=[""])], style="none"))
     did += 1
+    # a spelling that LOOKS like a template but is only an alternate spelling (the printed name is plain): it still parses
+    cands.append(enum(did, [variant("Circle", "tuple", [field("u8")], ser=["circle({0})"], ts="circle"),
+                            variant("Square", "named", [field("u8", "w")], ser=["sq{w}", "s"], ts="square"),
+                            variant("Dot", ser=["dot{}"], ts="dot")]))
+    did += 1
     # two spellings of one variant that differ only in case, under every combination of the enum-level and variant-level flag
     for eaci in (False, True):
         for order in (0, 1):
